@@ -6,4 +6,6 @@ Desc(k) == [p \in 1..k |-> k + 1 - p]
 (* minimum in the middle, maximum at the end, ties *)
 Zig(k)  == [p \in 1..k |-> IF p = (k + 1) \div 2 THEN 0 ELSE IF p = k THEN k + 5 ELSE 3 + (p % 2)]
 MC_Orders == UNION {{Asc(k), Desc(k), Zig(k)} : k \in NPix}
+(* export of the model's configurations: the driver performs each on the real builder *)
+EmitCfg == phase = "done" => PrintT(<<"CFG", n, chunk, runs>>)
 =============================================================================
